@@ -173,20 +173,20 @@ theorem containers_chain (a b : Alg.Seq β) (ha : a.wf o) (hb : b.wf o) :
     (Alg.chainS o a b).toList o = a.toList o ++ b.toList o ∧ (Alg.chainS o a b).wf o :=
   Alg.toList_chainS o a b ha hb
 
-/-- `seq.take(indices)` denotes `[seq[i] for i in indices]` for in-range indices whose hits in the first part of every chain
-precede the hits in the second part (`TakeOK`; all callers in the source pass increasing indices). -/
-theorem containers_take (s : Alg.Seq β) (idx : List Nat) (h : s.wf o) (hi : ∀ i ∈ idx, i < (s.toList o).length)
-    (hok : Alg.TakeOK o s idx) :
+/-- `seq.take(indices)` denotes `[seq[i] for i in indices]` for all in-range indices **in any order** (the model mirrors the
+repaired `_Chain.take`, which falls back to the generic `_Take` when an index into the first sequence follows one into
+the second). -/
+theorem containers_take (s : Alg.Seq β) (idx : List Nat) (h : s.wf o) (hi : ∀ i ∈ idx, i < (s.toList o).length) :
     (Alg.takeS o s idx).toList o = idx.filterMap (fun i => (s.toList o)[i]?) ∧ (Alg.takeS o s idx).wf o :=
-  Alg.toList_takeS o s idx h hi hok
+  Alg.toList_takeS o s idx h hi
 
-/-- The restriction `TakeOK` is needed: `_Chain.take` returns the hits in the first sequence before the hits in the second
-one, so for indices that are not sorted across the chain boundary the order is wrong (replayed on the real code by the check:
-known finding `container-take:chain-unsorted-indices`). -/
-theorem containers_take_unsorted_counterexample :
+/-- Before the repair (`Alg.takeSOld`) the statement was false: `_Chain.take` returned the hits in the first sequence before
+the hits in the second one (regression corpus case `container-take:chain-unsorted-indices` of the check). -/
+theorem containers_take_old_counterexample :
     let o : Alg.Ops Nat := ⟨fun a b => a * 10 + b, fun _ _ => []⟩
     let s := Alg.chainS o (Alg.fromIter [1, 2, 1]) (Alg.fromIter [2, 2, 1])
-    (Alg.takeS o s [5, 0, 4, 1]).toList o ≠ [5, 0, 4, 1].filterMap (fun i => (s.toList o)[i]?) := by
+    (Alg.takeSOld o s [5, 0, 4, 1]).toList o ≠ [5, 0, 4, 1].filterMap (fun i => (s.toList o)[i]?) ∧
+    (Alg.takeS o s [5, 0, 4, 1]).toList o = [5, 0, 4, 1].filterMap (fun i => (s.toList o)[i]?) := by
   decide
 
 /-- `seq.compress(mask)` -/
